@@ -67,7 +67,11 @@ macro_rules! collect {
                     };
                     let dec = $reader.decoder();
                     let decoded = dec.decode(&bytes).ok().map(|c| c.into_owned());
-                    out.push(Ev { k: kind(&ev).to_string(), bytes, decoded, label, enc: dec.encoding().name().to_string() });
+                    // Decoder::decode_into is the same function with a caller-supplied buffer: same text or the same refusal
+                    let mut sbuf = String::from("#");
+                    let decoded2 = dec.decode_into(&bytes, &mut sbuf).ok().map(|_| sbuf[1..].to_string());
+                    let k = if decoded == decoded2 { kind(&ev).to_string() } else { "DecodeIntoDisagrees".to_string() };
+                    out.push(Ev { k, bytes, decoded, label, enc: dec.encoding().name().to_string() });
                 }
                 Err(_) => {
                     out.push(Ev { k: "Err".into(), bytes: vec![], decoded: None, label: String::new(), enc: $reader.decoder().encoding().name().to_string() });
@@ -240,7 +244,12 @@ pub fn record(out: &str, seed: u64, n: usize) -> Value {
             let orig = read_all(base.as_bytes(), 0, 0);
             // decoded payloads of the UTF-8 original are the strings themselves
             let malformed = j % 5 == 4 && [UTF_8, SHIFT_JIS, EUC_JP, GBK, BIG5, EUC_KR, GB18030].contains(&enc);
-            if malformed {
+            if malformed && enc != UTF_8 && (j / 5) % 2 == 0 {
+                // a lead byte of a two-byte sequence as the LAST byte of the first text: the sequence is cut off by the `<`
+                // that ends the payload (0x81 is a lead byte in all of these encodings, 0x8F in EUC-JP)
+                let at = bytes.windows(4).position(|w| w == b"<!--").unwrap_or(bytes.len() - 1);
+                bytes.insert(at, if enc == EUC_JP { 0x8F } else { 0x81 });
+            } else if malformed {
                 // 0xFF is not a valid byte in any of these encodings; put it into text (and sometimes an attribute value)
                 let at = bytes.windows(2).position(|w| w == b"\">").map(|p| p + 2).unwrap_or(bytes.len() - 1);
                 bytes.insert(at, 0xFF);
